@@ -127,6 +127,8 @@ inductive Instr where
   | copy (k : Nat) (body : List Instr)
   | copyAttr (k : Nat) (name : QN)      -- copy-of / for-each+copy of the attribute `name` of source element `k`
   | useSets (ks : List Nat)             -- `use-attribute-sets` of the enclosing xsl:element / xsl:copy (first child)
+  | rtfVar (k : Nat) (body : List Instr) -- `<xsl:variable name="f<k>"> body </xsl:variable>`: a result tree fragment
+  | copyVar (k : Nat)                   -- `<xsl:copy-of select="$f<k>"/>`
   | call (k : Nat) (body : List Instr)  -- `xsl:call-template name="t<k>"`: the named template of imported module `k`
                                         -- (its body is carried along so that `exec` stays structurally recursive)
 deriving Repr, Inhabited
@@ -160,6 +162,7 @@ structure Env where
 structure Run where
   st : St
   tags : List String := []     -- branch tags, newest first
+  frags : List (Nat × List Src) := []    -- result tree fragments bound to variables
   bad : Bool := false          -- the stylesheet would not compile (undeclared prefix in exclude-result-prefixes)
 
 mutual
@@ -181,6 +184,43 @@ def addLiteralAtts (h : Handler) (s : St) : List Att → St
 def srcNsOf (chain : List (List Att)) (p : String) : String :=
   if p = "" then "" else if p = "xml" then xmlURI
   else (chain.findSome? (fun atts => (atts.find? (fun a => a.name = ⟨"xmlns", p⟩)).map (·.val))).getD ""
+
+/-! ### result tree fragments (`beginCreateXResultTreeFrag` … `endCreateXResultTreeFrag`, `FormatterToSourceTree`) -/
+
+/-- namespace URI `FormatterToSourceTree` / `XalanSourceTreeDocument::createElementNode` records for an element name: the
+prefix resolver is the engine, i.e. the result namespaces stack at the moment the start tag is delivered — the fragment's own
+open elements (`chain`, nearest first) and, unless the fragment has its own scope, whatever the *enclosing result context*
+binds (`outer`).  The flag says the enclosing context was needed. -/
+def fragNsOf (outer : String → Option String) (chain : List (List Att)) (p : String) : String × Bool :=
+  if p = "xml" then (xmlURI, false)
+  else
+    match chain.findSome? (fun atts => (atts.find? (fun a => a.name = QN.decl p)).map (·.val)) with
+    | some u => (u, false)
+    | none =>
+      match outer p with
+      | some u => (u, u ≠ "")
+      | none => ("", false)
+
+/-- the events delivered to the fragment's `FormatterToSourceTree`, oldest first, as a forest.  `open_` = the open elements
+(name, attributes, children so far, newest first); attribute nodes are created namespace declarations first
+(`createElementNode`).  Returns the top-level nodes and whether a binding of the enclosing context was used. -/
+def fragBuild (outer : String → Option String) :
+    List Ev → List (QN × List Att × List Src) → List Src → Bool → List Src × Bool
+  | [], _, top, used => (top.reverse, used)
+  | .start n atts :: evs, open_, top, used =>
+    let sorted := atts.filter (fun a => a.name.pfx = "xmlns" || a.name = ⟨"", "xmlns"⟩) ++
+                  atts.filter (fun a => !(a.name.pfx = "xmlns" || a.name = ⟨"", "xmlns"⟩))
+    fragBuild outer evs ((n, sorted, []) :: open_) top used
+  | .stop _ :: evs, (n, atts, kids) :: rest, top, used =>
+    let chain := atts :: rest.map (fun e => e.2.1)
+    let r := fragNsOf outer chain n.pfx
+    let usedA := atts.any (fun a => a.name.pfx ≠ "" && a.name.pfx ≠ "xmlns" && (fragNsOf outer chain a.name.pfx).2)
+    let node := Src.elem n r.1 atts kids.reverse
+    match rest with
+    | [] => fragBuild outer evs [] (node :: top) (used || r.2 || usedA)
+    | (pn, pa, pk) :: rest' => fragBuild outer evs ((pn, pa, node :: pk) :: rest') top (used || r.2 || usedA)
+  | .stop _ :: evs, [], top, used => fragBuild outer evs [] top used
+  | .text :: evs, open_, top, used => fragBuild outer evs open_ top used
 
 def elementHandler (env : Env) (aliasing : Bool := true) : Handler :=
   (Handler.ctor ([] :: env.stack)).postConstruct (some env.parent) "xsl" [] aliasing
@@ -222,6 +262,23 @@ def exec (env : Env) (r : Run) : Instr → Run
       let r := execList env' r false body
       { r with st := r.st.endElement n }
   | .useSets ks => execSets env r ks
+  | .rtfVar k body =>
+    -- `pushOutputContext`: new pending element / attributes / target; the namespaces stack is shared, or (repaired) isolated
+    let s0 := r.st
+    let inner : St := { s0 with pendName := none, pendAtts := [], out := [],
+                                ns := if s0.v.rtfIsolatedNs then { frames := [], createNew := [] } else s0.ns }
+    let r1 := execList env { r with st := inner, tags := "V" :: r.tags } false body
+    let s1 := r1.st.flushPending
+    let outer : String → Option String := if s0.v.rtfIsolatedNs then (fun _ => none) else s0.resultNs
+    let built := fragBuild outer s1.out.reverse [] [] false
+    { r1 with st := { s1 with pendName := s0.pendName, pendAtts := s0.pendAtts, out := s0.out,
+                              ns := if s0.v.rtfIsolatedNs then s0.ns else s1.ns },
+              tags := (if built.2 then "V:outerBinding" else "V:selfContained") :: r1.tags,
+              frags := (k, built.1) :: r1.frags }
+  | .copyVar k =>
+    match r.frags.find? (fun f => f.1 = k) with
+    | some f => { r with st := cloneList [] r.st f.2, tags := "CV" :: r.tags }
+    | none => { r with bad := true }
   | .call k body =>
     match env.modules[k]? with
     | some (stk, th) => execList { env with stack := stk, parent := th } r false body
